@@ -57,6 +57,7 @@ Proof.
   destruct (query_datagram name C_TYPE_SRV now Hwf ltac:(left; reflexivity)) as (_ & Hb & Hsz & H). cbv zeta in H.
   destruct H as (_ & _ & Hid & L1 & L2 & L3 & L4 & _ & _ & HQ). fold data in Hb, Hsz, Hid, L1, L2, L3, L4, HQ.
   rewrite (fstep_datagram_unfold f data addr port now tc rq rd Hb Hsz Hdup). cbv zeta.
+  unfold msgs_after, waiting. rewrite Hdef.
   set (p := parse data now None FRAMES) in *.
   assert (HD : datagram (f_ls f) (lmsg_of data p) addr now (nonempty (g_services (n_reg (f_node f)))) tc =
                (set_deferred {| ls_data := Some data; ls_last_time := now; ls_last_msg := Some false;
@@ -297,19 +298,89 @@ Proof. intro H. unfold answered_with, deferred_of. rewrite H. reflexivity. Qed.
 Lemma send_gate_keep outs t dest m ps : In (OSend t dest m) outs -> packets m = Ok ps -> In (OSend t dest m) (send_gate outs).
 Proof. intros Hin Hp. unfold send_gate. apply in_flat_map. exists (OSend t dest m). split; [exact Hin|]. rewrite Hp. left. reflexivity. Qed.
 
+(* the reassembly lists hold truncated queries only, as DNSIncoming decoded them - so this datagram (TC bit clear) is never a
+   copy of a packet that waits, and its DNSIncoming always enters the table *)
+Definition DefTruncP (d : list (text * list lmsg)) : Prop :=
+  forall a l, In (a, l) d -> forall m, In m l ->
+    lm_truncated m = true /\ exists t, m = lmsg_of (lm_data m) (parse (lm_data m) t None FRAMES).
+
+Definition DefTrunc (f : fnode) : Prop := DefTruncP (ls_deferred (f_ls f)).
+
+Lemma DefTrunc_init : DefTrunc fnode_init.
+Proof. intros a l []. Qed.
+
+Lemma datagram_deferred s m a now he tc s' o : datagram s m a now he tc = (s', o) ->
+  ls_deferred s' = ls_deferred s \/ ls_deferred s' = d_del text_eqb (ls_deferred s) a \/
+  (lm_truncated m = true /\ ls_deferred s' = d_set text_eqb (ls_deferred s) a (deferred_of s a ++ [m])).
+Proof.
+  unfold datagram. cbv zeta.
+  destruct (Z.of_nat (length (lm_data m)) >? C_MAX_MSG_ABSOLUTE); [intro H; inversion H; subst; left; reflexivity|].
+  destruct (is_duplicate s (lm_data m) now); [intro H; inversion H; subst; left; reflexivity|].
+  destruct (negb (lm_valid m)); [intro H; inversion H; subst; left; reflexivity|].
+  destruct (negb (lm_is_query m)); [intro H; inversion H; subst; left; reflexivity|].
+  destruct (negb he); [intro H; inversion H; subst; left; reflexivity|].
+  destruct (lm_truncated m) eqn:T; cbn [negb].
+  2:{ unfold respond_query. cbn [ls_deferred ls_timers]. intro H; inversion H; subst. right. left. reflexivity. }
+  cbn [ls_deferred ls_timers].
+  destruct (existsb (fun x => bytes_eqb (lm_data x) (lm_data m))
+                    match d_get text_eqb (ls_deferred s) a with Some l => l | None => [] end);
+    intro H; inversion H; subst; [left; reflexivity|right; right; split; reflexivity].
+Qed.
+
+Lemma DefTrunc_step f l : DefTrunc f -> DefTrunc (fst (fstep f l)).
+Proof.
+  intro HD. destruct l as [data addr port now tc rq rd|addr port now rq rd|nl]; cbn [fstep].
+  - destruct (Z.of_nat (length data) >? C_MAX_MSG_ABSOLUTE); [exact HD|].
+    destruct (is_duplicate (f_ls f) data now); [exact HD|].
+    destruct (m_escaped (parse data now None FRAMES)); [exact HD|].
+    set (p := parse data now None FRAMES).
+    destruct (datagram (f_ls f) (lmsg_of data p) addr now (nonempty (g_services (n_reg (f_node f)))) tc) as [ls' o] eqn:E.
+    assert (HP : DefTruncP (ls_deferred ls')).
+    { apply datagram_deferred in E as [E|[E|[T E]]]; rewrite E.
+      - exact HD.
+      - intros a l Hin. apply tdel_In in Hin. exact (HD a l Hin).
+      - intros a l Hin. apply tset_In in Hin as [Hin|[-> ->]]; [exact (HD a l Hin)|].
+        intros x Hx. apply in_app_or in Hx as [Hx|[<-|[]]].
+        + unfold deferred_of in Hx. destruct (d_get text_eqb (ls_deferred (f_ls f)) addr) as [l0|] eqn:G; [|destruct Hx].
+          apply tget_In in G. exact (HD addr l0 G x Hx).
+        + split; [exact T|]. exists now. reflexivity. }
+    destruct o; try exact HP.
+    unfold DefTrunc. rewrite (proj1 (respond_ls _ _ _ _ _ _ _ _ _)). exact HP.
+  - unfold respond_query. cbv zeta. unfold DefTrunc. rewrite (proj1 (respond_ls _ _ _ _ _ _ _ _ _)).
+    cbn [ls_deferred set_deferred]. intros a l Hin. apply tdel_In in Hin. exact (HD a l Hin).
+  - destruct (nstep (f_node f) nl) as [n' outs]. exact HD.
+Qed.
+
+Lemma DefTrunc_run : forall ls f, DefTrunc f -> DefTrunc (fstate f ls).
+Proof.
+  induction ls as [|l ls IH]; intros f HD; [exact HD|]. cbn [fstate]. apply IH. apply DefTrunc_step. exact HD.
+Qed.
+
+Lemma srv_query_not_waiting f name addr : DefTrunc f -> wf_name name ->
+  waiting f addr (query_bytes (mkq name C_TYPE_SRV)) = false.
+Proof.
+  intros HD Hwf. destruct (waiting f addr (query_bytes (mkq name C_TYPE_SRV))) eqn:W; [exfalso|reflexivity].
+  unfold waiting in W. destruct (d_get text_eqb (ls_deferred (f_ls f)) addr) as [l0|] eqn:G; [|discriminate W].
+  apply existsb_exists in W as (x & Hx & Hb). apply text_eqb_eq in Hb.
+  apply tget_In in G. destruct (HD addr l0 G x Hx) as [T [t Et]]. rewrite Hb in Et.
+  destruct (query_datagram name C_TYPE_SRV t Hwf ltac:(left; reflexivity)) as (_ & _ & _ & H). cbv zeta in H.
+  destruct H as (_ & _ & _ & _ & _ & L3 & _). rewrite <- Et in L3. congruence.
+Qed.
+
 Lemma srv_query_reaches_handler_pending : forall f s name addr port now tc rq rd,
   MsgsOk f -> In s (registered (n_reg (f_node f))) -> wf_name name ->
   let data := query_bytes (mkq name C_TYPE_SRV) in
-  is_duplicate (f_ls f) data now = false ->
+  is_duplicate (f_ls f) data now = false -> waiting f addr data = false ->
   let msgs := answered_with f addr data now ++ [srv_qmsg now name] in
   exists id0, QueryOk msgs id0 /\
     f_node (fst (fstep f (FDatagram data addr port now tc rq rd))) = fst (nstep (f_node f) (LQuery now msgs id0 addr port rq rd)) /\
     snd (fstep f (FDatagram data addr port now tc rq rd)) = send_gate (snd (nstep (f_node f) (LQuery now msgs id0 addr port rq rd))).
 Proof.
-  intros f s name addr port now tc rq rd HM Hs Hwf data Hdup msgs.
+  intros f s name addr port now tc rq rd HM Hs Hwf data Hdup Hnw msgs.
   destruct (query_datagram name C_TYPE_SRV now Hwf ltac:(left; reflexivity)) as (_ & Hb & Hsz & H). cbv zeta in H.
   destruct H as (_ & _ & Hid & L1 & L2 & L3 & L4 & _ & _ & HQ). fold data in Hb, Hsz, Hid, L1, L2, L3, L4, HQ.
   rewrite (fstep_datagram_unfold f data addr port now tc rq rd Hb Hsz Hdup). cbv zeta.
+  unfold msgs_after. rewrite Hnw.
   pose proof (parse_QOk data now Hb) as HQok.
   unfold msgs, answered_with. cbv zeta.
   set (p := parse data now None FRAMES) in *.
@@ -366,7 +437,8 @@ Proof.
   intros ls s name addr port now tc rq rd Hr f n Hs Hd Hwf Hn data Hdup Hk l n'.
   pose proof (Good_run ls fnode_init Good_init Hr) as (_ & HM & HJ & _ & HE). fold f in HM, HJ, HE. fold n in HJ, HE.
   pose proof (J_RegInv _ HJ) as HI.
-  destruct (srv_query_reaches_handler_pending f s name addr port now tc rq rd HM Hs Hwf Hdup) as (id0 & HQ & En & Eo).
+  pose proof (srv_query_not_waiting f name addr (DefTrunc_run ls fnode_init DefTrunc_init) Hwf) as Hnw.
+  destruct (srv_query_reaches_handler_pending f s name addr port now tc rq rd HM Hs Hwf Hdup Hnw) as (id0 & HQ & En & Eo).
   fold data in HQ, En, Eo. fold l in En, Eo. fold n' in En. fold n in En, Eo.
   pose proof (srv_strategies (n_reg n) s now name Hn (registered_lookup _ s HI Hs)) as Hst.
   pose proof (srv_nstep_pending n s now name (answered_with f addr data now) id0 addr port rq rd Hst Hd Hk) as H.
